@@ -1,0 +1,36 @@
+//go:build verif
+
+// Contracts for the cluster membership store (read as text by /verif's govc; comment-only).
+
+package store
+
+//@ # ghost: the state currently held by the copy-on-read observable store behind a core
+//@ ghost SpecState map[*core]State
+
+//@ # x/go/store semantics (assumed): CopyState returns a deep copy (fresh Nodes map with
+//@ # the same content), SetState installs the given state.
+//@ trusted func (c *core) CopyState() (s State)
+//@   ensures s.HostKey == SpecState[c].HostKey && s.ClusterKey == SpecState[c].ClusterKey
+//@   ensures s.Nodes != nil && __fresh(s.Nodes)
+//@   ensures forall k node.Key :: __in(s.Nodes, k) == __in(SpecState[c].Nodes, k) && s.Nodes[k] == SpecState[c].Nodes[k]
+//@   modifies nothing
+//@ trusted func (c *core) SetState(ctx context.Context, s State)
+//@   ensures __eq(SpecState[c], s)
+//@   ensures forall x *core :: x != c ==> __eq(SpecState[x], old(SpecState[x]))
+//@   modifies SpecState
+
+//@ # Merge: for every member key the store keeps the record that is ahead; nothing is
+//@ # dropped, a recorded heartbeat never regresses, newer state is never overwritten by older.
+//@ func (c *core) Merge(ctx context.Context, other node.Group)
+//@   requires forall k node.Key :: __in(other, k) ==> other[k].Key == k
+//@   ensures  forall k node.Key :: __in(SpecState[c].Nodes, k) == (old(__in(SpecState[c].Nodes, k)) || __in(other, k))
+//@   ensures  forall k node.Key :: __in(other, k) && (!old(__in(SpecState[c].Nodes, k)) || other[k].Heartbeat.OlderThan(old(SpecState[c].Nodes[k]).Heartbeat)) ==> SpecState[c].Nodes[k] == other[k]
+//@   ensures  forall k node.Key :: old(__in(SpecState[c].Nodes, k)) && !(__in(other, k) && other[k].Heartbeat.OlderThan(old(SpecState[c].Nodes[k]).Heartbeat)) ==> SpecState[c].Nodes[k] == old(SpecState[c].Nodes[k])
+//@   # consequence stated explicitly: monotone
+//@   ensures  forall k node.Key :: old(__in(SpecState[c].Nodes, k)) ==> !old(SpecState[c].Nodes[k]).Heartbeat.OlderThan(SpecState[c].Nodes[k].Heartbeat)
+//@   ensures  SpecState[c].HostKey == old(SpecState[c].HostKey) && SpecState[c].ClusterKey == old(SpecState[c].ClusterKey)
+//@   modifies SpecState
+//@   loop 0 modifies snap.Nodes
+//@   loop 0 invariant forall k node.Key :: __in(snap.Nodes, k) == (old(__in(SpecState[c].Nodes, k)) || __seen(k))
+//@   loop 0 invariant forall k node.Key :: __seen(k) && (!old(__in(SpecState[c].Nodes, k)) || other[k].Heartbeat.OlderThan(old(SpecState[c].Nodes[k]).Heartbeat)) ==> snap.Nodes[k] == other[k]
+//@   loop 0 invariant forall k node.Key :: old(__in(SpecState[c].Nodes, k)) && !(__seen(k) && other[k].Heartbeat.OlderThan(old(SpecState[c].Nodes[k]).Heartbeat)) ==> snap.Nodes[k] == old(SpecState[c].Nodes[k])
